@@ -93,17 +93,17 @@ CHECKS = {
 # lanes added after the first build (DESIGN.md sections 8 and 11): appended to the level text of each check
 EXT = {
  "C01": "Also through the real binary: round trips onto fresh / longer existing output paths and pipes, self-addressed files, near-twin key names, special plaintext contents, every given/not-given combination of key_encrypt's optional arguments, an ambient decoy environment (KESTREL_KEYRING, KESTREL_NEW_PASSWORD, non-UTF-8 variables, stale sibling files) around every CLI run.",
- "C02": "Also through the real binary: near-miss, white-space-edged, very long (to 128 KiB) and non-UTF-8 environment passwords (refused or byte-exact), passwords typed at a pseudo-terminal, round trips onto existing longer output paths.",
+ "C02": "Also through the real binary: near-miss, white-space-edged, very long (to 128 KiB) and non-UTF-8 environment passwords (refused or byte-exact), passwords typed at a pseudo-terminal, round trips onto existing longer output paths. The 36-byte header of reference-written files is read under every constant read size 1..=48, 'first n then everything' and mixed schedules.",
  "C03": "Also through the real binary in both modes: the acceptance model on files and on streams whose added bytes arrive late (stdin, /dev/stdin, a named pipe as FILE), rearrangements combined with counter rewrites, histories with an interrupted earlier run, special plaintext contents.",
  "C04": "Also through the real binary: every corrupted / truncated case onto an absent path, a longer existing file and a symbolic link to one; closed, slow non-blocking and no-controlling-terminal destinations.",
- "C05": "Also: the forger's substitutes for a refused Diffie-Hellman (zeros, empty string, other lengths, the point itself); through the binary: near-twin names, -k vs environment keyring, two entries with one name, keyrings of 3..1000 entries, decoy entries whose key text is a near twin of the sender's.",
+ "C05": "Also: the forger's substitutes for a refused Diffie-Hellman (zeros, empty string, other lengths, the point itself); through the binary: near-twin names, -k vs environment keyring, two entries with one name, keyrings of 3..1000 entries, decoy entries whose key text is a near twin of the sender's. Forged files for low-order keys use zeros, other lengths of zeros, the empty string, the point itself, an omitted step, and stale values (the previous token's output, public keys) for the refused Diffie-Hellman.",
  "C06": "Also: non-canonical public-key encodings (bit 255, u >= p), sinks of every granularity incl. natively vectored ones; through the binary: tool <-> specification in both directions with white-space-edged passwords, short-chunk files, extreme shapes (empty plaintext, one-byte records) into every sink, the repository fixtures onto existing paths.",
  "C07": "Also: 30 000-draw single-thread histories, draws of lengths that are not multiples of 32, release-profile child lane, same-password change-pass histories through the binary.",
  "C08": "Also: one-half-only ephemeral arguments, single-thread histories of many senders; through the binary: existing longer output paths holding identity material, no-controlling-terminal wiring (prompt text must not reach the file).",
  "C09": "Also through the real binary: structured argv with hostile path strings and symlink shapes (CPU-time hang verdict), non-UTF-8 environments, almost-well-formed key texts in every role, unusual process states (removed cwd, closed descriptors, descriptor / stack / memory / CPU limits, umask), raw key material of every length.",
- "C10": "Also: natively vectored sinks, the flush invariant (at Ok every accepted byte precedes a successful flush), files chunked by another conforming implementation; through the binary: /dev/full, closed pipes, OS short writes under a file-size limit.",
+ "C10": "Also: natively vectored sinks, the flush invariant (at Ok every accepted byte precedes a successful flush), files chunked by another conforming implementation; through the binary: /dev/full, closed pipes, OS short writes under a file-size limit. The public entry points are driven over every constant read size 1..=140 and 'first n then everything' for both modes and directions; the fault sweeps also run over streams that are not authentic (extended, cut), judged against the fault-free run of the same stream.",
  "C11": "Also: reads of thousands of distinct sizes, hostile tails after a complete / unterminated file (memory independent of what follows); through the binary: input offset while stdout is stalled (/proc fdinfo) and output while stdin trickles in (settled read(0) states) - state observations, no timing verdicts - and /dev/stdin as FILE.",
- "C12": "Also: files named like command words, FIFO / /dev/stdout / symlink wirings, closed and full sinks for every command, keyrings beyond 1 MiB, a damaged unrelated keyring entry at every position (refused before any output, or truthful).",
+ "C12": "Also: files named like command words, FIFO / /dev/stdout / symlink wirings, closed and full sinks for every command, keyrings beyond 1 MiB, a damaged unrelated keyring entry at every position (refused before any output, or truthful). Stdin is also fed with a first piece of 1-5 bytes followed by pauses.",
  "C13": "Also: five prior states (absent, short, 400 kB, dangling symbolic link, link to a file) with a whole-directory snapshot (names, types, link targets, hashes, inodes, stale siblings), long / multi-byte output names, later-chunk failures far into 17 MiB files and in short-chunk files, generation under a file-size limit, 'may succeed' causes.",
  "C14": "Also: keyrings over 8 KiB and padded across 128 KiB / 1 MiB / 2 MiB, keyrings behind symbolic links, invalid names inside histories, near-twin names each used as sender and recipient, generations typed at a pseudo-terminal, write failures.",
  "C15": "Also through the real binary: white-space-edged, near-miss and very long passwords in every command that takes a locked key, keyring-based use under wrong passwords, blobs of other lengths that differ only by zero bytes, key generation with a stray KESTREL_NEW_PASSWORD, unlock retried at a pseudo-terminal.",
